@@ -21,12 +21,15 @@ import (
 	"sort"
 	"strings"
 	"sync"
+	"sync/atomic"
 	"testing"
+	"time"
 
 	"github.com/tailscale/setec/audit"
 	"github.com/tailscale/setec/db"
 
 	"verif/harness/internal/evid"
+	"verif/harness/internal/httpdrv"
 	"verif/harness/internal/ops"
 	"verif/harness/internal/realdb"
 	"verif/harness/internal/refmodel"
@@ -135,9 +138,13 @@ func TestC06(t *testing.T) {
 		for i := 0; i < r.N(8, 60); i++ {
 			concurrent(t, r, dir, i)
 		}
+		for i := 0; i < r.N(6, 60); i++ {
+			concurrentDurability(t, r, dir, i)
+		}
+		serverLevel(t, r, dir)
 	}
 	r.Require("calls_with_one_record", "calls_with_no_record", "denied_calls_recorded", "unchanged_conditional_gets", "write_failures_injected", "sync_failures_injected",
-		"mutations_logged_before_effect", "concurrent_lines")
+		"mutations_logged_before_effect", "concurrent_lines", "concurrent_durability_checks", "server_level_denials")
 	r.Rule("sequential: seeded histories of ~30 calls (all 9 operations, callers with random rule sets incl. none, names incl. empty and reserved); per call the records captured between invocation and return are compared with the expectation table; in a third of the histories the sink fails the Write or the Sync of one chosen record. Concurrent: 16 goroutines x mixed calls with unique (user, secret) pairs on a real audit file; every line must parse and the multiset of records must equal the expected one. Distinct = (operation, authorised?, records expected, failure injected)")
 }
 
@@ -446,4 +453,129 @@ func concurrent(t *testing.T, r *evid.Run, dir string, idx int) {
 		r.Violation("audit-log-mode", idx, fmt.Sprintf("audit log mode %o", st.Mode().Perm()), nil)
 	}
 	r.Distinct("concurrent")
+}
+
+// durSink models what "synced" means: a Sync makes durable exactly the bytes that had been
+// written when it was CALLED (it takes a little while, like a real fsync).
+type durSink struct {
+	mu      sync.Mutex
+	recs    [][]byte
+	durable int // recs[:durable] are on stable storage
+}
+
+func (s *durSink) Write(p []byte) (int, error) {
+	s.mu.Lock()
+	s.recs = append(s.recs, append([]byte(nil), p...))
+	s.mu.Unlock()
+	return len(p), nil
+}
+
+func (s *durSink) Sync() error {
+	s.mu.Lock()
+	mark := len(s.recs)
+	s.mu.Unlock()
+	time.Sleep(30 * time.Microsecond)
+	s.mu.Lock()
+	if mark > s.durable {
+		s.durable = mark
+	}
+	s.mu.Unlock()
+	return nil
+}
+
+// durableFor reports whether a record of user is among the durable ones.
+func (s *durSink) durableFor(user string) (found, durable bool) {
+	s.mu.Lock()
+	defer s.mu.Unlock()
+	needle := []byte(`"user":"` + user + `"`)
+	for i, rc := range s.recs {
+		if bytes.Contains(rc, needle) {
+			return true, i < s.durable
+		}
+	}
+	return false, false
+}
+
+// concurrentDurability: when a call returns, ITS record must have been covered by a sync that began
+// after the record was written, however many other callers are writing and syncing at the same time.
+func concurrentDurability(t *testing.T, r *evid.Run, dir string, idx int) {
+	r.Eval(1)
+	snk := &durSink{}
+	d, err := db.Open(filepath.Join(dir, fmt.Sprintf("dur%d.db", idx)), realdb.DummyKey("c06d"), audit.New(snk))
+	if err != nil {
+		t.Fatal(err)
+	}
+	d.Put(realdb.Super(), "s", []byte("v"))
+	var wg sync.WaitGroup
+	var bad atomic.Int32
+	for g := 0; g < 12; g++ {
+		wg.Add(1)
+		go func(g int) {
+			defer wg.Done()
+			for k := 0; k < 60; k++ {
+				user := fmt.Sprintf("dur-g%d-k%d@verif", g, k)
+				c := realdb.Caller(user, []refmodel.Rule{{Actions: actions, Patterns: []string{"*"}}})
+				var res ops.Result
+				if k%2 == 0 {
+					res = ops.ApplyReal(d, c, ops.Op{Kind: ops.Get, Name: "s"})
+				} else {
+					res = ops.ApplyReal(d, c, ops.Op{Kind: ops.Info, Name: "s"})
+				}
+				found, durable := snk.durableFor(user)
+				r.Count("concurrent_durability_checks", 1)
+				if res.Class == refmodel.OK && (!found || !durable) && bad.Add(1) <= 2 {
+					r.Violation("record-not-synced", idx, fmt.Sprintf("durability run %d: the call of %s returned its result, but its audit record (written: %t) was not covered by a sync that started after it was written", idx, user, found), nil)
+				}
+			}
+		}(g)
+	}
+	wg.Wait()
+	r.Distinct("concurrent-durability")
+}
+
+// serverLevel: requests that the HTTP front end refuses for lack of permission leave a denial record too,
+// also for peers the tailnet grants nothing at all.
+func serverLevel(t *testing.T, r *evid.Run, dir string) {
+	snk := &sink{path: filepath.Join(dir, "srv.db")}
+	d, err := db.Open(snk.path, realdb.DummyKey("c06s"), audit.New(snk))
+	if err != nil {
+		t.Fatal(err)
+	}
+	d.Put(realdb.Super(), "s", []byte("v"))
+	srv, err := httpdrv.New(d)
+	if err != nil {
+		t.Fatal(err)
+	}
+	peers := map[string]httpdrv.Who{
+		"100.64.9.1:1": {Login: "nogrant@verif", Node: "nogrant"},                                                                                          // no capability at all
+		"100.64.9.2:1": {Login: "other@verif", Node: "other", Rules: []refmodel.Rule{{Actions: []string{"get"}, Patterns: []string{"elsewhere"}}}},         // a grant that does not match
+		"100.64.9.3:1": {Login: "noact@verif", Node: "noact", Rules: []refmodel.Rule{{Actions: []string{"info"}, Patterns: []string{"*"}}}},                // matching pattern, other action
+		"100.64.9.4:1": {Login: "tagged", Node: "tagged", Tags: []string{"tag:x"}, Rules: []refmodel.Rule{{Actions: []string{}, Patterns: []string{"*"}}}}, // empty action list
+	}
+	for addr, who := range peers {
+		srv.SetWho(addr, who)
+		for _, op := range []ops.Op{{Kind: ops.Get, Name: "s"}, {Kind: ops.GetVer, Name: "s", Version: 1}, {Kind: ops.GetCond, Name: "s", Version: 1}, {Kind: ops.Put, Name: "s", Value: []byte("x")},
+			{Kind: ops.Act, Name: "s", Version: 1}, {Kind: ops.DelVer, Name: "s", Version: 1}, {Kind: ops.Delete, Name: "s"}, {Kind: ops.Get, Name: "absent"}} {
+			r.Eval(1)
+			mk := snk.mark()
+			res, rep, _ := srv.Do(addr, op)
+			recs := snk.since(mk)
+			r.Count("server_level_denials", 1)
+			r.Distinct("server-level denial " + string(op.Kind))
+			if res.Class != refmodel.Denied {
+				r.Violation("server-denial-status", -1, fmt.Sprintf("peer %s (%+v) %s: status %d, expected a permission denial", addr, who.Rules, op, rep.Status), nil)
+				continue
+			}
+			ok := false
+			for _, rc := range recs {
+				var e audit.Entry
+				if json.Unmarshal(rc.bytes, &e) == nil && !e.Authorized && string(e.Action) == op.Kind.Action() && e.Secret == op.Name && e.Principal.Hostname == who.Node {
+					ok = true
+				}
+			}
+			if !ok {
+				r.Violation("denial-not-recorded", -1, fmt.Sprintf("peer %s (%s, rules %+v): %s was refused with 403 but no denial record naming the caller, the action and the secret was written (%d records)", addr, who.Login, who.Rules, op, len(recs)), nil)
+			}
+		}
+	}
 }
